@@ -176,6 +176,10 @@ let handle (cmd : string) (rest : string) : string =
                 if !mutex_held then (deferred := !deferred @ [ LRegister; LSpawn; LAcceptDequeue ]; [])
                 else [ LRegister; LSpawn; LAcceptDequeue ]
             | '0' | '1' -> []     (* the peer goes away: the session runs up to its conn.Close(), which is held *)
+            | 'q' -> [ LReqStart O ]            (* a request arrives on session 0 and its handler blocks *)
+            | 'w' -> [ LReqStart (S O) ]
+            | 'h' -> [ LReqEnd O ]              (* the handler of session 0 is released: the response is written *)
+            | 'j' -> [ LReqEnd (S O) ]
             | 'a' -> [ LSessClose O; LSessDone O ]
             | 'b' -> [ LSessClose (S O); LSessDone (S O) ]
             | 'S' -> mutex_held := true; [ LShCloseDone ]
@@ -186,8 +190,9 @@ let handle (cmd : string) (rest : string) : string =
         rest;
       let show_sh s = match s.s_pc with SNotCalled -> "notcalled" | SReturned RNil -> "nil" | SReturned RCtx -> "ctx" | SReturned RErr -> "err" | _ -> "pending" in
       let show_serve s = match s.a_pc with AReturned RNil -> "nil" | AReturned _ -> "err" | _ -> "running" in
-      let show_conn = function SNone -> "none" | SRegistered | SRunning -> "running" | SClosed | SEnded -> "ended" | SLateClosed -> "late" in
-      let show_conns s = String.concat "," (List.map show_conn s.sess) in
+      let show_conn = function SNone -> "none" | SRegistered | SRunning -> "running" | SInFlight -> "inflight" | SClosed | SEnded -> "ended" | SLateClosed -> "late" in
+      let count c l = List.length (List.filter (fun x -> int_of_nat x = c) l) in
+      let show_conns s = String.concat "," (List.mapi (fun i x -> Printf.sprintf "%s:%d" (show_conn x) (count i s.answered)) s.sess) in
       let set f = String.concat "/" (uniq (List.map f !states)) in
       Printf.sprintf "sh=%s serve=%s conns=%s" (set show_sh) (set show_serve) (set show_conns)
   | _ -> "unknown-command " ^ cmd
